@@ -61,7 +61,15 @@ ReqUrls(pc) ==
                  \cup {SubSeq(f, 1, Len(f) - 1) : f \in {g \in full : Len(g) > 0}}
         \* no empty LAST segment: that is the trailing-slash spelling of the shorter URL (var "ts")
         ok(p) == Len(p) = 0 \/ p[Len(p)] # <<>>
-    IN {[h |-> h, p |-> p] : h \in {pc.h, OtherHost[1]}, p \in {q \in paths : ok(q)}}
+        good == {q \in paths : ok(q)}
+        \* host / path boundary moved with the number of parts unchanged: the first path segment written as a further host
+        \* label ("a.com.7/x" against "a.com/{id}/x"), the last host label written as first path segment ("api.a/com/x").
+        \* The tree walks parts, the expression tells host from path. (only dot-free segments can be a host label)
+        NoDot(seg) == \A i \in 1..Len(seg) : seg[i] # "."
+        extended  == {[h |-> Append(pc.h, q[1]), p |-> Tail(q)] : q \in {r \in good : Len(r) > 0 /\ Len(r[1]) > 0 /\ NoDot(r[1])}}
+        truncated == IF Len(pc.h) < 2 THEN {}
+                     ELSE {[h |-> SubSeq(pc.h, 1, Len(pc.h) - 1), p |-> <<pc.h[Len(pc.h)]>> \o q] : q \in good}
+    IN {[h |-> h, p |-> p] : h \in {pc.h, OtherHost[1]}, p \in good} \cup extended \cup truncated
 
 \* OtherHost is a single-label host
 CatchAllUrls == { [h |-> << <<"a">>, <<"c", "o", "m">> >>, p |-> <<>>],
